@@ -64,6 +64,7 @@ pub fn make_case(class: u64, idx: u64, seed: u64) -> Case {
     let mut r = Rng::derive(seed, "C15", class, idx);
     let mut flags = BASE_FLAGS;
     let mut cls = "unicode-names";
+    let mut big_pair = 0usize;
     let (mut domain, mut user, mut password) = (client::unicode_string(&mut r, 40), client::unicode_string(&mut r, 40), client::unicode_string(&mut r, 64));
     match class {
         1 => {
@@ -101,6 +102,21 @@ pub fn make_case(class: u64, idx: u64, seed: u64) -> Case {
             }
             cls = "flag-variants";
         }
+        6 => {
+            // very long names and target info: every field still fits its 16-bit length, the token as a whole passes 64 KiB
+            let units = [1000usize, 5000, 12000, 16000, 20000, 32767];
+            let (nd, nu) = (*r.pick(&units), *r.pick(&units));
+            let alphabet = ['a', 'B', 'é', 'Ж', '中', '9', '-'];
+            domain = (0..nd).map(|_| *r.pick(&alphabet)).collect();
+            user = (0..nu).map(|_| *r.pick(&alphabet)).collect();
+            big_pair = *r.pick(&[0usize, 9000, 30000, 60000]);
+            if r.chance(1, 3) {
+                flags = (flags & !ntlm::F_UNICODE) | ntlm::F_OEM;
+                domain = (0..nd).map(|i| (b'a' + (i % 26) as u8) as char).collect();
+                user = (0..nu).map(|i| (b'A' + (i % 26) as u8) as char).collect();
+            }
+            cls = "large-fields";
+        }
         _ => {}
     }
     if r.chance(1, 8) {
@@ -119,6 +135,10 @@ pub fn make_case(class: u64, idx: u64, seed: u64) -> Case {
         }
     }
     pairs.push((7, r.bytes(8)));
+    if big_pair > 0 {
+        pairs.retain(|p| p.0 != 9);
+        pairs.push((9, r.bytes(big_pair)));
+    }
     for i in (1..pairs.len()).rev() {
         let j = r.below(i as u64 + 1) as usize;
         pairs.swap(i, j);
@@ -232,7 +252,7 @@ pub fn run(cfg: &Cfg) -> Report {
             }
         }
     }
-    let plan: Vec<(u64, u64)> = vec![(0, cfg.n(10_000, 1_200_000)), (1, cfg.n(3_000, 200_000)), (2, cfg.n(1_000, 100_000)), (3, cfg.n(3_000, 200_000)), (4, cfg.n(500, 20_000)), (5, cfg.n(2_500, 200_000))];
+    let plan: Vec<(u64, u64)> = vec![(0, cfg.n(10_000, 1_200_000)), (1, cfg.n(3_000, 200_000)), (2, cfg.n(1_000, 100_000)), (3, cfg.n(3_000, 200_000)), (4, cfg.n(500, 20_000)), (5, cfg.n(2_500, 200_000)), (6, cfg.n(300, 20_000))];
     for (class, n) in plan {
         if !cfg.wants(class) {
             continue;
